@@ -90,6 +90,7 @@ def generate(R, tier):
         sc["knots"] = R.choice(["coincide", "coincide", "sparse"])
         sc["mapcls"] = R.choice(["standard", "standard", "extended"])
         sc["maprows"] = R.choice(["sorted", "sorted", "unsorted"])
+        sc["maphist"] = R.choice([None, None, "export"])
         sc["mapfn"] = R.choice(["haldane", "haldane", "kosambi"])
         # history: the matrix may have been mapped before, onto another map and/or with another map function
         sc["remap"] = None if R.random() < 0.6 else {"factor": R.choice([0.25, 0.5, 2.0, 3.0]), "mapfn": R.choice(["haldane", "kosambi"])}
@@ -97,7 +98,7 @@ def generate(R, tier):
 
 
 def shrink(sc):
-    for k, plain in (("shuffled", False), ("knots", "coincide"), ("mapcls", "standard"), ("maprows", "sorted"), ("mapfn", "haldane")):
+    for k, plain in (("shuffled", False), ("knots", "coincide"), ("mapcls", "standard"), ("maprows", "sorted"), ("maphist", None), ("mapfn", "haldane")):
         if sc.get(k) not in (None, plain):
             c = copy.deepcopy(sc)
             c[k] = plain
@@ -203,6 +204,10 @@ def _parents(sc, chrgrp, phypos, genpos, xo, ntaxa, hetero):
                 return ExtendedGeneticMap(vrnt_chrgrp=kc[o], vrnt_phypos=kp[o], vrnt_stop=kp[o], vrnt_genpos=numpy.asarray(gen)[o], **kw)
             return StandardGeneticMap(vrnt_chrgrp=kc[o], vrnt_phypos=kp[o], vrnt_genpos=numpy.asarray(gen)[o], **kw)
         gmap = mkmap(kg)
+        if sc.get("maphist") == "export":
+            # the map has been exported (default units) and its interpolation rebuilt before it is used
+            gmap.to_pandas()
+            gmap.build_spline()
         # a chromosome needs two map points for a spline; pad single-marker chromosomes
         try:
             rm = sc.get("remap")
@@ -522,6 +527,6 @@ def _out(sc, V, log, faults, probes, ncmp, g):
     if not sc["kind"].startswith("strat"):
         f["real_prng_design"] = 1
     trace = "%s|%s|chr%d|%s|self%s|%s|%s|%s|%s|%s|%s" % (sc["kind"], sc.get("fn") or sc.get("prot"), sc["nchr"], sc["xosrc"], sc.get("nself"), sc.get("mapfn"), sc.get("knots"),
-                                                   (sc.get("mapcls") or "-") + ("/u" if sc.get("maprows") == "unsorted" else ""), "remap" if sc.get("remap") else "-", "shuf" if sc.get("shuffled") else "-", "inbred" if sc.get("inbred") else "-")
+                                                   (sc.get("mapcls") or "-") + ("/u" if sc.get("maprows") == "unsorted" else "") + ("/x" if sc.get("maphist") else ""), "remap" if sc.get("remap") else "-", "shuf" if sc.get("shuffled") else "-", "inbred" if sc.get("inbred") else "-")
     return {"violations": V, "log": log, "trace": trace, "nontrivial": ncmp > 0, "faults": f, "probes": probes,
             "sim": {"gametes": sc["N"], "frequency_comparisons": ncmp}}
